@@ -92,6 +92,33 @@ def _standin(rep, tier, seed, only_search=False):
                                       "imager:refit-depends-on-history", {"input": {"pixel_size": ps, "history": hist}, "observed": list(_img_state(pi)[:3]), "expected": list(_img_state(ref)[:3])})
                         if only_search:
                             return
+            # ---------------- imager: collections holding the same array object several times, and parallel transforms of three or
+            # more diagrams of different sizes (element by element, in order, whatever the worker schedule)
+            if it % 3 == 0:
+                a, b, c = _rand_dgm(rng, 3), _rand_dgm(rng, 5), _rand_dgm(rng, 4)
+                for X in ([a, a], [a, b, a], [c] * 3, [a, b, c], [b, c, a], [c, a, b, a]):
+                    pi1, pi2 = PersistenceImager(pixel_size=ps), PersistenceImager(pixel_size=ps)
+                    out = pi1.fit_transform(list(X))
+                    pi2.fit(list(X))
+                    want = pi2.transform(list(X))
+                    evals += 1
+                    distinct.add(("imager-collection", len(X), len({id(x) for x in X})))
+                    if _img_state(pi1) != _img_state(pi2) or not (len(out) == len(want) and all(np.array_equal(p_, q_) for p_, q_ in zip(out, want))):
+                        rep.violation("fit_transform on a collection of %d diagrams (%d distinct array objects) differs from fit followed by transform: states %s vs %s" % (len(X), len({id(x) for x in X}), _img_state(pi1)[:3], _img_state(pi2)[:3]),
+                                      "imager:fit_transform-vs-fit-transform", {"input": {"pixel_size": ps, "collection_sizes": [len(x) for x in X], "object_ids_repeat": [[i for i, y in enumerate(X) if y is x] for x in X], "diagrams": [x.tolist() for x in X]}})
+                        if only_search:
+                            return
+                        break
+                    single = [pi2.transform(x) for x in X]
+                    for nj in (1, 2):
+                        par = pi2.transform(list(X), n_jobs=nj)
+                        evals += 1
+                        if not (len(par) == len(single) and all(np.array_equal(p_, q_) for p_, q_ in zip(par, single))):
+                            rep.violation("imager transform(collection of sizes %s, n_jobs=%d) is not element by element, in order" % ([len(x) for x in X], nj), "imager:collection-order",
+                                          {"input": {"pixel_size": ps, "collection_sizes": [len(x) for x in X], "n_jobs": nj, "diagrams": [x.tolist() for x in X]}})
+                            if only_search:
+                                return
+                            break
             # ---------------- landscaper
             fixed = rng.choice([{}, {"start": 0.0}, {"stop": 20.0}, {"start": 0.0, "stop": 20.0}])
             ns = rng.choice([5, 11])
